@@ -505,6 +505,8 @@ int timerfd_settime(int fd, int flags, const struct itimerspec *nv, struct itime
 {
     REAL(timerfd_settime);
     if (fail_now(VS_TIMERFD_SETTIME, fd)) { errno = cur.plan->fail_errno; return -1; }
+    if (cur.active && watch_c08 && cur.api && !strcmp(cur.api, "xcm_cleanup"))
+        alarm_add("c08-cleanup-timerfd_settime", fd, "timerfd_settime(%d, %s) during xcm_cleanup: the timer is shared with the owner process, whose pending timeout is changed", fd, nv->it_value.tv_sec || nv->it_value.tv_nsec ? "arm" : "disarm");
     int rc = real_timerfd_settime(fd, flags, nv, ov);
     if (rc == 0 && fd >= 0 && fd < MAXFD) fds[fd].armed = nv->it_value.tv_sec != 0 || nv->it_value.tv_nsec != 0;
     return rc;
